@@ -20,7 +20,7 @@ LEVEL = "exploration"
 TECHNIQUE = "exhaustive enumeration of step sequences x all bracketings against plain function composition; reflection-driven helper table against the Python operations"
 RULE = (
     "atoms {decorated step with Option parameter P, plain callable, helper step with Option parameter Q, nested "
-    "two-step pipeline, empty pipeline}; all sequences of length 1..4 (quick) / 1..5 (thorough) x all binary "
+    "two-step pipeline, empty pipeline, the explicit Identity step}; all sequences of length 1..4 (quick) / 1..5 (thorough) x all binary "
     "bracketings of '+' (Catalan) x inputs {1, 'v'} x dictionaries {{}, {P:5}, {P:5,Q:6}}; helpers: every public "
     "name of labrea.functions, operands from a typed universe, each argument constant and Option-valued (two option "
     "values).  Non-trivial = pipelines with >= 2 steps / helper cases whose result depends on the operand order or "
@@ -31,7 +31,7 @@ ASSUMPTIONS = ["function-valued helper arguments are given as constants or as ev
 # -------------------------------------------------------------------------
 # pipelines
 
-ATOMS = ["S", "F", "H", "N", "E"]
+ATOMS = ["S", "F", "H", "N", "E", "I"]
 
 
 def make_atoms():
@@ -58,7 +58,9 @@ def make_atoms():
     def n2(x):
         return ("n2", x)
 
-    return {"S": s, "F": f, "H": h, "N": n1 + n2, "E": Pipeline()}
+    from labrea.pipeline import Identity
+
+    return {"S": s, "F": f, "H": h, "N": n1 + n2, "E": Pipeline(), "I": Identity}
 
 
 def model_steps(seq, o):
